@@ -175,6 +175,9 @@ Example C01_program_nonvacuous :
             SDefineRoutine "up" ["m"] (SBlock [SCall "down" [RVar "m"] false; SAssign "m" (RLit (LInt 99))]);
             SDefineRoutine "sq" ["n"] (SBlock [SIf (RExpr (EBin BLt (EVar "n") (ELit (LInt 0)))) (SReturn (Some (RLit (LInt 0)))) (Some (SReturn (Some (RExpr (EBin BMul (EVar "n") (EVar "n"))))))]);
             SDefineRoutine "pick" ["g2"] (SBlock [SPrintln (Some (RCall "sq" [RLit (LInt 3)])); SReturn (Some (RCall "first_in" [RVar "g2"]))]);
+            SDefineRoutine "fact" ["n"]
+              (SBlock [SIf (RExpr (EBin BLt (EVar "n") (ELit (LInt 2)))) (SReturn (Some (RLit (LInt 1)))) None;
+                       SReturn (Some (RExpr (EBin BMul (EVar "n") (ECall "fact" [RExpr (EBin BSub (EVar "n") (ELit (LInt 1)))]))))]);
             SDefineMacro "turn" (MLit (LInt 120));
             SDefineMacro "lamp" (MLit (LStr "b"));
             SAssign "total" (RLit (LInt 0));
@@ -203,6 +206,7 @@ Example C01_program_nonvacuous :
             STimeAt [TPat "8:00" [([8%Z], [0%Z])]; TPat "9:3*" [([9%Z], [30%Z; 31%Z; 32%Z])]]; SSet OpAll;
             SGet (RLit (LStr "a")); SPrintln (Some (RReg R_HUE)); SSet OpDefault;
             SAssign "who" (RCall "pick" [RLit (LStr "g")]); SPrintln (Some (RVar "who"));
+            SPrintln (Some (RExpr (EBin BAdd (ECall "fact" [RLit (LInt 5)]) (ENeg (ECall "round" [RVar "total"])))));
             SAssign "r" (RCall "round" [RVar "total"]); SPrintln (Some (RCall "floor" [RExpr (EBin BDiv (EVar "total") (ELit (LInt 2)))]));
             SReg R_HUE (RCall "sq" [RVar "total"]); SPrint (Some (RCall "sq" [RExpr (EBin BSub (EVar "total") (ELit (LInt 7)))]));
             SPrintln (Some (RVar "total"))] in
